@@ -518,7 +518,7 @@ func cmdGen(args []string) {
 	// ---- TreeData.v
 	var sb strings.Builder
 	sb.WriteString("(* GENERATED by /verif/harness gen from /repo/tree.go + runtime dump. Do not edit. *)\n")
-	sb.WriteString("From Verif Require Import Base.Bytes Model.Types.\nOpen Scope N_scope.\nOpen Scope string_scope.\n\n")
+	sb.WriteString("From Verif Require Import Base.Bytes Model.Types.\nLocal Open Scope N_scope.\nLocal Open Scope string_scope.\n\n")
 	sb.WriteString("Definition nodes : list node := [\n")
 	for i, fn := range flat {
 		par := "None"
@@ -560,7 +560,7 @@ func cmdGen(args []string) {
 	// ---- SigData.v
 	sb.Reset()
 	sb.WriteString("(* GENERATED by /verif/harness gen from /repo/internal/magic/*.go. Do not edit. *)\n")
-	sb.WriteString("From Verif Require Import Base.Bytes Model.Types.\nOpen Scope N_scope.\nOpen Scope string_scope.\n\n")
+	sb.WriteString("From Verif Require Import Base.Bytes Model.Types.\nLocal Open Scope N_scope.\nLocal Open Scope string_scope.\n\n")
 	var names []string
 	for n := range sigs {
 		names = append(names, n)
@@ -638,7 +638,7 @@ func cmdGen(args []string) {
 	// ---- Tables.v (runtime dump through the hooks)
 	sb.Reset()
 	sb.WriteString("(* GENERATED by /verif/harness gen from the runtime tables of /repo (verif hooks). Do not edit. *)\n")
-	sb.WriteString("From Verif Require Import Base.Bytes Model.Types.\nOpen Scope N_scope.\nOpen Scope string_scope.\n\n")
+	sb.WriteString("From Verif Require Import Base.Bytes Model.Types.\nLocal Open Scope N_scope.\nLocal Open Scope string_scope.\n\n")
 	sb.WriteString("Definition boms : list (bytes * bytes) := [\n")
 	bs := charset.VerifBoms()
 	for i, bm := range bs {
